@@ -405,7 +405,18 @@ def propagate_new_temporaries(mod, pinned):
                 if not (isinstance(st, ast.Assign) and len(st.targets) == 1 and st.targets[0] is stores[0]):
                     continue
                 # a name that a nested function / class reads or writes (closure variable) is shared state, not a temporary
-                if any(isinstance(x, ast.Name) and x.id == name for d_ in ast.walk(fn) if d_ is not fn and isinstance(d_, FUNC_TYPES + (ast.ClassDef, ast.Lambda)) for x in ast.walk(d_)):
+                def _free_in(d_):
+                    if not any(isinstance(x, ast.Name) and x.id == name for x in ast.walk(d_)):
+                        return False
+                    if isinstance(d_, FUNC_TYPES):
+                        own = set(alpha._params(d_)) | set(n_ for n_, _s in alpha.local_bindings(d_))
+                        if any(isinstance(x, (ast.Global, ast.Nonlocal)) and name in x.names for x in ast.walk(d_)):
+                            return True
+                        return name not in own
+                    if isinstance(d_, ast.Lambda):
+                        return name not in [a.arg for a in d_.args.args]
+                    return True
+                if any(_free_in(d_) for d_ in ast.walk(fn) if d_ is not fn and isinstance(d_, FUNC_TYPES + (ast.ClassDef, ast.Lambda))):
                     continue
                 # uses inside nested functions/lambdas would change evaluation time
                 if any(isinstance(a, FUNC_TYPES + (ast.Lambda,)) and a is not fn for l in loads for a in _ancestors(l) if _is_inside(a, fn)):
